@@ -8,6 +8,7 @@ import ast, inspect, textwrap, types, builtins, math, operator, itertools, time,
 import z3
 from .values import *
 from .values import _key
+from fractions import Fraction
 
 DEBUG = False
 
@@ -122,6 +123,7 @@ class Interp:
         self._canon_cache = {}
         self.lazy = False
         self.loop_cut = False
+        self.uf = None             # UFModel when exp/log/sqrt of symbolic reals are modelled by uninterpreted functions
         self.pow10 = None          # Pow10Model when 10**x of symbolic reals is modelled by uninterpreted functions
         self.footprint = None     # when a dict: records attribute reads/writes {"r": set, "w": set}
         self.no_merge = False
@@ -908,6 +910,14 @@ class Interp:
 
     def binop(self, op, a, b):
         t = type(op)
+        import numpy as _np
+        if isinstance(a, _np.ndarray) and a.ndim == 1 and (is_sym(b) or isinstance(b, SymArray)):
+            a = SymArray([pyscalar(x) for x in a], a.dtype.kind == "f")
+        if isinstance(b, _np.ndarray) and b.ndim == 1 and (is_sym(a) or isinstance(a, SymArray)):
+            b = SymArray([pyscalar(x) for x in b], b.dtype.kind == "f")
+        if isinstance(a, list) and isinstance(b, Sym) and getattr(b, "np_scalar", False) and t in (ast.Div, ast.Mult, ast.Add, ast.Sub):
+            # list <op> numpy scalar: numpy broadcasts (e.g. Hlocal / np.mean(Hlocal))
+            a = SymArray(list(a))
         if t in (ast.In, ast.NotIn):
             r = self.contains(b, a)
             return self.not_(r) if t is ast.NotIn else r
@@ -1129,6 +1139,19 @@ class Interp:
             a, b = to_sym(a), to_sym(b)
         if a.kind in ("bv", "fp") or b.kind in ("bv", "fp"):
             return self.fp_binop(t, a, b)
+        if t in CMP and (getattr(a, "frac", None) is not None) != (getattr(b, "frac", None) is not None):
+            # quotient by a symbolic term compared with a constant: num/den <op> c  <=>  num <op> c*den  when den > 0 (keeps the query linear)
+            q, o, flip = (a, b, False) if getattr(a, "frac", None) is not None else (b, a, True)
+            oz = z3.simplify(as_real(o))
+            if z3.is_rational_value(oz):
+                num, den = q.frac
+                if not self.feasible(den <= 0):
+                    lhs, rhs = num, oz * den
+                    if flip:
+                        lhs, rhs = rhs, lhs
+                    z = {ast.Eq: lambda: lhs == rhs, ast.NotEq: lambda: lhs != rhs, ast.Lt: lambda: lhs < rhs, ast.LtE: lambda: lhs <= rhs,
+                         ast.Gt: lambda: lhs > rhs, ast.GtE: lambda: lhs >= rhs}[t]()
+                    return Sym(z, "bool")
         if t in CMP:
             if a.kind == "real" or b.kind == "real":
                 x, y = as_real(a), as_real(b)
@@ -1141,6 +1164,10 @@ class Interp:
             z = {ast.Eq: lambda: x == y, ast.NotEq: lambda: x != y, ast.Lt: lambda: x < y, ast.LtE: lambda: x <= y,
                  ast.Gt: lambda: x > y, ast.GtE: lambda: x >= y}[t]()
             return Sym(z, "bool")
+        if t is ast.Pow and self.uf is not None:
+            bz0 = z3.simplify(b.z)
+            if z3.is_rational_value(bz0) and bz0.as_fraction() == Fraction(1, 2):
+                return Sym(self.uf.sqrt(self, as_real(a)), "real")
         if t is ast.Pow:
             bz = z3.simplify(b.z)
             if z3.is_int_value(bz):
@@ -1173,6 +1200,7 @@ class Interp:
                         raise PyRaise(ZeroDivisionError("division by zero"))
                 else:
                     self.raise_if(y == 0, PyRaise(ZeroDivisionError("division by zero")))
+                    return Sym(x / y, "real", frac=(x, y))
                 return Sym(x / y, "real")
             raise Unsupported("real op %s" % t.__name__)
         x, y = as_int(a), as_int(b)
